@@ -24,15 +24,21 @@ impl Rng {
 pub struct Out {
 	w: BufWriter<File>,
 	pub lines: u64,
+	pub bytes: u64,
 }
 impl Out {
 	pub fn create(dir: &Path, name: &str) -> anyhow::Result<Out> {
-		Ok(Out { w: BufWriter::new(File::create(dir.join(name))?), lines: 0 })
+		Ok(Out { w: BufWriter::new(File::create(dir.join(name))?), lines: 0, bytes: 0 })
 	}
+	/// one line; a single line is cut at 4 MB and a file at 3 GB (a runaway implementation must not fill the disk -
+	/// a cut line or file differs from the model's output and is reported as such)
 	pub fn line(&mut self, s: &str) {
-		self.w.write_all(s.as_bytes()).unwrap();
+		if self.bytes > 3_000_000_000 { return; }
+		let cut = if s.len() > 4_000_000 { let mut k = 4_000_000; while !s.is_char_boundary(k) { k -= 1; } k } else { s.len() };
+		self.w.write_all(&s.as_bytes()[..cut]).unwrap();
+		if cut < s.len() { self.w.write_all(format!(" ...<cut after 4000000 of {} bytes>", s.len()).as_bytes()).unwrap(); }
 		self.w.write_all(b"\n").unwrap();
-		self.lines += 1;
+		self.lines += 1; self.bytes += cut as u64 + 1;
 	}
 	pub fn finish(mut self) { self.w.flush().unwrap(); }
 }
